@@ -148,7 +148,9 @@ pub proof fn lemma_ifft_upto_add(s: Seq<Sv>, t: Seq<Sv>, dist: int, delta: int, 
     if dist > 1 {
         lemma_pow2_half(dist);
         assert(2 * (dist / 2) == dist);
-        if dist / 2 > 1 { lemma_half_block(s.len() as int, dist / 4); lemma_pow2_half(dist / 2); assert(4 * (dist / 4) == dist); assert(2 * (dist / 4) == dist / 2); }
+        // order matters for stability: 4 * (dist / 4) == dist is the precondition of lemma_half_block (the aarch64 view found the
+        // old order - lemma call first - to depend on solver luck)
+        if dist / 2 > 1 { lemma_pow2_half(dist / 2); assert(2 * (dist / 4) == dist / 2); assert(4 * (dist / 4) == dist); lemma_half_block(s.len() as int, dist / 4); }
         lemma_ifft_upto_add(s, t, dist / 2, delta, skew, n);
         let s1 = ifft_upto(s, dist / 2, delta, skew); let t1 = ifft_upto(t, dist / 2, delta, skew);
         lemma_ifft_layer_add(s1, t1, dist / 2, delta, skew, n);
